@@ -28,9 +28,10 @@ type Clause struct {
 }
 
 type specExpr struct {
-	Op   string // "", "==>", "<==>"
+	Op   string // "", "==>", "<==>", "not"
 	L, R *specExpr
 	E    ast.Expr
+	Subs map[string]*specExpr // parenthesised sub-formulas containing ==> / <==>, referenced by placeholder names
 }
 
 type Contract struct {
@@ -44,6 +45,8 @@ type Contract struct {
 	HasAssign bool
 	PureFrame bool // assigns nothing
 	Trusted   bool // contract is assumed, not verified (must be listed in evidence)
+	Inline    bool // verified on its own, but callers inline the body
+	Effects   []*Effect
 	File      string
 	Pkg       string
 	Temporal  []*Temporal
@@ -58,9 +61,24 @@ type Temporal struct {
 	A      string // pattern of the triggering call
 	B      string // pattern of the required call
 	Cond   *specExpr
+	B2     string    // alternative required call
+	Cond2  *specExpr
 	When   *specExpr // filter on the triggering call
 	Unless *specExpr
 	Line   string
+}
+
+// Effect updates a ghost predicate when a contract is applied at a call site.
+type Effect struct {
+	Cond  *specExpr
+	Pred  string
+	Arg   ast.Expr
+	Value bool
+	Src   string
+	Line  string
+	Primitive bool // the callee's outcome defines the predicate (not re-checked against the body)
+	Var       string    // ghost integer variable updated (instead of a predicate)
+	VarExpr   *specExpr // new value
 }
 
 type SpecFn struct {
@@ -78,10 +96,12 @@ type SpecDB struct {
 	Files     []string
 	Errors    []string
 	UFs       map[string][]string // name -> arg sorts..., result sort
+	GhostPreds map[string]string  // name -> key sort
+	GhostVars  map[string]bool
 }
 
 func NewSpecDB() *SpecDB {
-	return &SpecDB{Contracts: map[string]*Contract{}, Fns: map[string]*SpecFn{}, Iface: map[string]string{}, Pure: map[string]bool{}, UFs: map[string][]string{}}
+	return &SpecDB{Contracts: map[string]*Contract{}, Fns: map[string]*SpecFn{}, Iface: map[string]string{}, Pure: map[string]bool{}, UFs: map[string][]string{}, GhostPreds: map[string]string{}, GhostVars: map[string]bool{}}
 }
 
 var tagRe = regexp.MustCompile(`^\[([^\]]*)\]\s*`)
@@ -161,11 +181,79 @@ func parseSpecExpr(s string) (*specExpr, error) {
 		}
 		return &specExpr{Op: "==>", L: le, R: re}, nil
 	}
+	// a fully parenthesised sub-formula may contain ==> / <==>
+	if strings.HasPrefix(s, "(") && (strings.Contains(s, "==>")) {
+		depth := 0
+		closeAt := -1
+		for i, c := range s {
+			if c == '(' {
+				depth++
+			} else if c == ')' {
+				depth--
+				if depth == 0 {
+					closeAt = i
+					break
+				}
+			}
+		}
+		if closeAt == len(s)-1 {
+			return parseSpecExpr(s[1 : len(s)-1])
+		}
+	}
+	if strings.HasPrefix(s, "!(") && strings.Contains(s, "==>") {
+		inner, err := parseSpecExpr(s[1:])
+		if err != nil {
+			return nil, err
+		}
+		return &specExpr{Op: "not", L: inner}, nil
+	}
+	// parenthesised groups that contain an implication are parsed separately and replaced by placeholders
+	subs := map[string]*specExpr{}
+	if strings.Contains(s, "==>") {
+		var out strings.Builder
+		i := 0
+		for i < len(s) {
+			if s[i] == '(' {
+				depth := 0
+				j := i
+				for ; j < len(s); j++ {
+					if s[j] == '(' {
+						depth++
+					} else if s[j] == ')' {
+						depth--
+						if depth == 0 {
+							break
+						}
+					}
+				}
+				grp := s[i : j+1]
+				isCall := i > 0 && (isIdentChar(s[i-1]))
+				if !isCall && strings.Contains(grp, "==>") && j < len(s) {
+					sub, err := parseSpecExpr(grp[1 : len(grp)-1])
+					if err != nil {
+						return nil, err
+					}
+					name := fmt.Sprintf("sub__%d", len(subs))
+					subs[name] = sub
+					out.WriteString(name)
+					i = j + 1
+					continue
+				}
+			}
+			out.WriteByte(s[i])
+			i++
+		}
+		s = out.String()
+	}
 	e, err := parser.ParseExpr(s)
 	if err != nil {
 		return nil, fmt.Errorf("cannot parse %q: %v", s, err)
 	}
-	return &specExpr{E: e}, nil
+	return &specExpr{E: e, Subs: subs}, nil
+}
+
+func isIdentChar(c byte) bool {
+	return c == '_' || c >= 'a' && c <= 'z' || c >= 'A' && c <= 'Z' || c >= '0' && c <= '9'
 }
 
 // LoadSpecFile parses one contract file. pkgPath is the import path of its package.
@@ -244,6 +332,17 @@ func (db *SpecDB) LoadSpecFile(path, pkgPath string) {
 			} else {
 				fail("iface needs: name kind")
 			}
+		case word == "ghostvar":
+			db.GhostVars[strings.TrimSpace(rest)] = true
+		case word == "ghost":
+			// ghost name(Sort)
+			i := strings.Index(rest, "(")
+			j := strings.Index(rest, ")")
+			if i < 0 || j < i {
+				fail("ghost syntax: ghost name(Sort)")
+				continue
+			}
+			db.GhostPreds[strings.TrimSpace(rest[:i])] = strings.TrimSpace(rest[i+1 : j])
 		case word == "purefn":
 			db.Pure[rest] = true
 		case word == "uf":
@@ -268,6 +367,47 @@ func (db *SpecDB) LoadSpecFile(path, pkgPath string) {
 			cur.Props = strings.Fields(rest)
 		case word == "trusted":
 			cur.Trusted = true
+		case word == "inline":
+			cur.Inline = true
+		case word == "effect" || word == "defines":
+			// effect <cond> : pred(arg) := true|false
+			i := strings.LastIndex(rest, ":=")
+			j := strings.LastIndex(rest[:max(i, 0)], " : ")
+			if i < 0 || j < 0 {
+				fail("effect syntax: effect <cond> : pred(arg) := true|false")
+				continue
+			}
+			cond, err := parseSpecExpr(rest[:j])
+			if err != nil {
+				fail(err.Error())
+				continue
+			}
+			lhs := strings.TrimSpace(rest[j+3 : i])
+			if db.GhostVars[lhs] {
+				ve, err := parseSpecExpr(rest[i+2:])
+				if err != nil {
+					fail(err.Error())
+					continue
+				}
+				cur.Effects = append(cur.Effects, &Effect{Cond: cond, Var: lhs, VarExpr: ve, Src: rest, Line: where, Primitive: true})
+				continue
+			}
+			call, err := parser.ParseExpr(lhs)
+			if err != nil {
+				fail(err.Error())
+				continue
+			}
+			ce, ok := call.(*ast.CallExpr)
+			if !ok || len(ce.Args) != 1 {
+				fail("effect target must be pred(arg)")
+				continue
+			}
+			id, _ := ce.Fun.(*ast.Ident)
+			if id == nil {
+				fail("effect target must be pred(arg)")
+				continue
+			}
+			cur.Effects = append(cur.Effects, &Effect{Cond: cond, Pred: id.Name, Arg: ce.Args[0], Value: strings.TrimSpace(rest[i+2:]) == "true", Src: rest, Line: where, Primitive: word == "defines"})
 		case word == "pure":
 			cur.PureFrame = true
 			cur.HasAssign = true
@@ -390,6 +530,7 @@ type Env struct {
 	types  map[string]types.Type
 	errs   *[]string
 	oldGhost map[string]Value
+	subs   map[string]*specExpr
 }
 
 func (e *Env) fail(format string, a ...interface{}) Value {
@@ -427,7 +568,11 @@ func (e *Env) loadPtr(p *PtrV) Value {
 func (e *Env) evalBool(se *specExpr) *Term {
 	switch se.Op {
 	case "==>":
-		l, r := e.evalBool(se.L), e.evalBool(se.R)
+		l := e.evalBool(se.L)
+		if l != nil && l.IsFalse() {
+			return TTrue
+		}
+		r := e.evalBool(se.R)
 		if l == nil || r == nil {
 			return nil
 		}
@@ -438,6 +583,17 @@ func (e *Env) evalBool(se *specExpr) *Term {
 			return nil
 		}
 		return Iff(l, r)
+	case "not":
+		l := e.evalBool(se.L)
+		if l == nil {
+			return nil
+		}
+		return Not(l)
+	}
+	if len(se.Subs) > 0 {
+		saved := e.subs
+		e.subs = se.Subs
+		defer func() { e.subs = saved }()
 	}
 	v := e.eval(se.E)
 	t, ok := v.(*Term)
@@ -482,8 +638,28 @@ func (e *Env) eval(x ast.Expr) Value {
 		case "false":
 			return TFalse
 		}
+		if sub, ok := e.subs[n.Name]; ok {
+			r := e.evalBool(sub)
+			if r == nil {
+				return nil
+			}
+			return r
+		}
 		if v, ok := e.names[n.Name]; ok {
 			return v
+		}
+		if e.ex.Specs.GhostVars[n.Name] {
+			key := "gv:" + n.Name
+			if e.inOld {
+				if e.oldGhost != nil {
+					if v, ok := e.oldGhost[key]; ok {
+						return v
+					}
+				} else if v, ok := e.st.PreGhost[key]; ok {
+					return v
+				}
+			}
+			return e.ex.ghostVar(e.st, n.Name)
 		}
 		if g, ok := e.st.Ghost[n.Name]; ok {
 			if e.inOld && e.oldGhost != nil {
@@ -496,6 +672,23 @@ func (e *Env) eval(x ast.Expr) Value {
 		if sf, ok := e.ex.Specs.Fns[n.Name]; ok && len(sf.Params) == 0 {
 			sub := &Env{ex: e.ex, st: e.st, old: e.old, inOld: e.inOld, names: map[string]Value{}, errs: e.errs}
 			return sub.evalSE(&sf.Body)
+		}
+		// package-level variables of the verified function's package (error values, constants)
+		if e.ex.entry != nil && e.ex.entry.Pkg != nil {
+			if g, ok := e.ex.entry.Pkg.Members[n.Name].(*ssa.Global); ok {
+				return e.loadPtr(&PtrV{Nil: TFalse, Obj: e.ex.globalObj(g)})
+			}
+			if c, ok := e.ex.entry.Pkg.Members[n.Name].(*ssa.NamedConst); ok {
+				return e.ex.constVal(c.Value)
+			}
+		}
+		for _, p := range e.ex.Prog.AllPackages() {
+			if !strings.HasPrefix(p.Pkg.Path(), modulePrefix) {
+				continue
+			}
+			if g, ok := p.Members[n.Name].(*ssa.Global); ok {
+				return e.loadPtr(&PtrV{Nil: TFalse, Obj: e.ex.globalObj(g)})
+			}
 		}
 		return e.fail("unknown identifier %s", n.Name)
 	case *ast.StarExpr:
@@ -583,6 +776,11 @@ func (e *Env) evalSE(se *specExpr) Value {
 	if se.Op != "" {
 		return e.evalBool(se)
 	}
+	if len(se.Subs) > 0 {
+		saved := e.subs
+		e.subs = se.Subs
+		defer func() { e.subs = saved }()
+	}
 	return e.eval(se.E)
 }
 
@@ -622,7 +820,17 @@ func (e *Env) field(v Value, name string, x ast.Expr) Value {
 
 func (e *Env) binary(n *ast.BinaryExpr) Value {
 	if n.Op == token.LAND || n.Op == token.LOR {
-		l, r := e.eval(n.X), e.eval(n.Y)
+		l := e.eval(n.X)
+		// short-circuit: a decided left operand guards the right one (p == nil || p.f ...)
+		if lt, ok := l.(*Term); ok && lt.Sort == SBool {
+			if n.Op == token.LOR && lt.IsTrue() {
+				return TTrue
+			}
+			if n.Op == token.LAND && lt.IsFalse() {
+				return TFalse
+			}
+		}
+		r := e.eval(n.Y)
 		lt, ok1 := l.(*Term)
 		rt, ok2 := r.(*Term)
 		if !ok1 || !ok2 || lt.Sort != SBool || rt.Sort != SBool {
@@ -761,6 +969,123 @@ func (e *Env) call(n *ast.CallExpr) Value {
 			return nil
 		}
 		return e.ex.iteVal(c, a, b, nil)
+	case "verifyOK":
+		// verifyOK(msg, sig, hash, addr): the signature verifier accepted (Verify returned nil)
+		if len(n.Args) != 4 {
+			return e.fail("verifyOK needs (message, signature, hash, address)")
+		}
+		var ts []*Term
+		for _, a := range n.Args {
+			t, ok := e.ex.argTerm(e.st, e.evalBytesArg(a))
+			if !ok {
+				return e.fail("verifyOK: argument %s is not a term", exprString(a))
+			}
+			ts = append(ts, t)
+		}
+		return Eq(App("g_Verify_r0", SInt, ts...), IntC(0))
+	case "lastResult":
+		// lastResult("pattern", k): k-th result of the most recent call matching the pattern on this path
+		lit, ok := n.Args[0].(*ast.BasicLit)
+		kl, ok2 := n.Args[1].(*ast.BasicLit)
+		if !ok || !ok2 {
+			return e.fail("lastResult needs (string literal, index literal)")
+		}
+		pat, _ := strconv.Unquote(lit.Value)
+		k, _ := strconv.Atoi(kl.Value)
+		for i := len(e.st.Events) - 1; i >= 0; i-- {
+			ev := e.st.Events[i]
+			if eventMatches(ev, pat) && k < len(ev.Results) {
+				return ev.Results[k]
+			}
+		}
+		return nilMarker{}
+	case "addressOf":
+		iv, ok := e.eval(n.Args[0]).(*IfaceV)
+		if !ok {
+			return e.fail("addressOf needs a signer")
+		}
+		return App("p_Address_r0", SB, iv.ID)
+	case "zero32":
+		return e.ex.G.BZero(IntC(32))
+	case "called":
+		// called("pattern"): some call matching the pattern happened on this path (decided per path)
+		lit, ok := n.Args[0].(*ast.BasicLit)
+		if !ok || lit.Kind != token.STRING {
+			return e.fail("called needs a string literal")
+		}
+		pat, _ := strconv.Unquote(lit.Value)
+		for _, ev := range e.st.Events {
+			if eventMatches(ev, pat) {
+				return TTrue
+			}
+		}
+		return TFalse
+	case "u64":
+		t, ok := e.eval(n.Args[0]).(*Term)
+		if !ok || t.Sort != SInt {
+			return e.fail("u64 of non-integer")
+		}
+		return Ite(Lt(t, IntC(0)), Add(t, IntB(Pow2(64))), t)
+	case "unwrap":
+		v := e.eval(n.Args[0])
+		if iv, ok := v.(*IfaceV); ok && iv.Val != nil {
+			return iv.Val
+		}
+		return e.fail("unwrap: dynamic value of %s is unknown", exprString(n.Args[0]))
+	case "sameobj":
+		a, ok1 := e.eval(n.Args[0]).(*PtrV)
+		b, ok2 := e.eval(n.Args[1]).(*PtrV)
+		if !ok1 || !ok2 {
+			return e.fail("sameobj needs two pointers")
+		}
+		return BoolC(a.Obj != nil && a.Obj == b.Obj)
+	case "present", "edge", "dbhas", "dbget", "vertexid":
+		o := objOf(e.eval(n.Args[0]))
+		if o == nil {
+			return e.fail("%s: first argument must be a pointer to the graph / database", id.Name)
+		}
+		var ks []*Term
+		for _, a := range n.Args[1:] {
+			t, ok := e.ex.argTerm(e.st, e.evalBytesArg(a))
+			if !ok || t.Sort != SB {
+				return e.fail("%s: key %s is not a byte string", id.Name, exprString(a))
+			}
+			ks = append(ks, t)
+		}
+		g := func(key, sort, hint string) *Term {
+			if e.inOld {
+				if e.oldGhost != nil {
+					if v, ok := e.oldGhost[key]; ok {
+						return v.(*Term)
+					}
+				} else if v, ok := e.st.PreGhost[key]; ok {
+					return v.(*Term)
+				}
+			}
+			t := e.ex.ghostArr(e.st, key, sort, hint)
+			if e.inOld && e.oldGhost == nil {
+				return e.st.PreGhost[key].(*Term)
+			}
+			return t
+		}
+		switch id.Name {
+		case "present":
+			return Neq(Select(g(fmt.Sprintf("dag:%d:vtx", o.ID), ArrSort(SB, SInt), "dag_vtx"), ks[0]), IntC(0))
+		case "vertexid":
+			return Select(g(fmt.Sprintf("dag:%d:vtx", o.ID), ArrSort(SB, SInt), "dag_vtx"), ks[0])
+		case "edge":
+			return Select(Select(g(fmt.Sprintf("dag:%d:edge", o.ID), ArrSort(SB, ArrSort(SB, SBool)), "dag_edge"), ks[0]), ks[1])
+		case "dbhas":
+			return Select(g(fmt.Sprintf("db:%d:has", o.ID), ArrSort(SB, SBool), "db_has"), ks[0])
+		case "dbget":
+			return Select(g(fmt.Sprintf("db:%d:val", o.ID), ArrSort(SB, SB), "db_val"), ks[0])
+		}
+	case "unixnano":
+		t, ok := e.eval(n.Args[0]).(*Term)
+		if !ok {
+			return e.fail("unixnano of non-time")
+		}
+		return App("time_unixnano", SInt, t)
 	case "le64":
 		v, ok := e.eval(n.Args[0]).(*Term)
 		if !ok {
@@ -796,10 +1121,27 @@ func (e *Env) call(n *ast.CallExpr) Value {
 		}
 		return sub.evalSE(&sf.Body)
 	}
+	if ks, ok := e.ex.Specs.GhostPreds[id.Name]; ok {
+		t, ok := e.ex.argTerm(e.st, e.evalBytesArg(n.Args[0]))
+		if !ok || t.Sort != ks {
+			return e.fail("ghost predicate %s needs an argument of sort %s", id.Name, ks)
+		}
+		key := "gp:" + id.Name
+		if e.inOld {
+			if e.oldGhost != nil {
+				if v, ok := e.oldGhost[key]; ok {
+					return Select(v.(*Term), t)
+				}
+			} else if v, ok := e.st.PreGhost[key]; ok {
+				return Select(v.(*Term), t)
+			}
+		}
+		return Select(e.ex.ghostPred(e.st, id.Name), t)
+	}
 	if sig, ok := e.ex.Specs.UFs[id.Name]; ok {
 		var args []*Term
 		for _, a := range n.Args {
-			v := e.eval(a)
+			v := e.evalBytesArg(a)
 			t, ok := e.ex.argTerm(e.st, v)
 			if !ok {
 				return e.fail("argument of %s is not a term", id.Name)
@@ -887,4 +1229,19 @@ func (e *Env) lvalueExprQuiet(x ast.Expr) *PtrV {
 		return p
 	}
 	return nil
+}
+
+// evalBytesArg evaluates an argument and, for byte slices, yields their content (respecting old()).
+func (e *Env) evalBytesArg(a ast.Expr) Value {
+	v := e.eval(a)
+	if s, ok := v.(*SliceV); ok && isByte(s.Elem) {
+		if s.Obj == nil {
+			return e.ex.G.StrConst("")
+		}
+		back, ok := e.ex.readPath(e.st, e.derefObj(s.Obj), s.Path, s.Obj.Typ).(*Term)
+		if ok && back.Sort == SB {
+			return e.ex.G.BSub(back, s.Off, s.Len)
+		}
+	}
+	return v
 }
